@@ -348,7 +348,13 @@ func (s *c03) call(target interface{}, o crdt.Op, inTx bool) (sig, msg string) {
 		if err == nil {
 			s.p.Commit(o, e)
 			if !inTx {
-				s.npend += e.NOps
+				// accepted without error: a silent no-op may emit nothing, an executed call one
+				// operation - whatever the pending list says now is the new base
+				if np := len(s.rep.Pending()) - 1; np == s.npend || np == s.npend+e.NOps {
+					s.npend = np
+				} else {
+					s.npend += e.NOps
+				}
 			}
 		}
 	}
